@@ -813,4 +813,47 @@ def analyse_heap_copies(prog, util=False):
                     verdict = "overflow"
                     why.append("allocation size `%s` at %s does not include strlen(%s)" % (render(sz), al.where, src))
             out.append(HeapCopy(f, c, src, verdict, "; ".join(why) or "every allocation the destination stems from is sized with strlen(%s)" % src))
+        # limited copies (snprintf / strncpy) of unbounded text into a heap buffer: the buffer must have been sized FOR that text,
+        # otherwise the limit silently cuts it (a buffer allocated once, before the text was known)
+        for c in f.calls(("snprintf", "strncpy", "strlcpy")):
+            a = c.call_args()
+            if len(a) < 3:
+                continue
+            arr, off = dest_array(a[0], f, arrays)
+            if arr is not None:
+                continue
+            if c.j["callee"] == "snprintf":
+                fmt = a[2].string_value() if len(a) > 2 else None
+                if fmt is None:
+                    continue
+                convs = [cv for cv in parse_format(fmt) if isinstance(cv, dict) or (isinstance(cv, tuple) and len(cv) > 1)]
+                srcs = [x for x in a[3:] if (x.j.get("ct") or "").endswith("char *")]
+            else:
+                srcs = [a[1]]
+            unb = [x for x in srcs if classify_source(x, f, arrays)[0] == UNBOUNDED]
+            if not unb:
+                continue
+            rd = rd or _rd(f)
+            o = origins(rd, a[0], c)
+            allocs = [x for x in o if not isinstance(x, tuple) and x.k == "CallExpr" and x.j.get("callee") in HEAP_ALLOCS and x.j.get("callee") not in ("strdup", "strndup")]
+            if not allocs:
+                continue
+            verdict, why = "ok", []
+            for al in allocs:
+                cn = al.j["callee"]
+                sz = al.call_args()[1] if cn == "realloc" else al.call_args()[0]
+                form = size_form(sz, f, al)
+                for x in unb:
+                    src = _norm(x)
+                    if src in form["terms"] and not _redefined_between(f, _names(x), al, c):
+                        continue
+                    if form["nonlinear"]:
+                        if verdict == "ok":
+                            verdict = "unknown"
+                        why.append("size %s at %s is not a linear strlen form" % (render(sz), al.where))
+                    else:
+                        verdict = "truncation"
+                        why.append("the buffer allocated at %s has `%s` bytes, which does not depend on strlen(%s): %s() cuts longer text" % (
+                            al.where, render(sz), src, c.j["callee"]))
+            out.append(HeapCopy(f, c, ", ".join(_norm(x) for x in unb), verdict, "; ".join(why) or "the buffer was sized for the text it receives"))
     return out
